@@ -24,7 +24,8 @@ if [ $BASELINE = 1 ]; then
   fi
 fi
 # snapshot of the harness sources, so that /verif/mc can be edited while this runs
-mkdir -p "$OUT/mc"; cp -r /verif/mc/src /verif/mc/Cargo.toml /verif/mc/Cargo.lock "$OUT/mc/"; [ -f /verif/mc/build.rs ] && cp /verif/mc/build.rs "$OUT/mc/"
+# (taken from the committed HEAD of /verif, never from the working tree)
+git -C /verif archive HEAD mc | tar -x -C "$OUT"
 sed -i 's#env!("CARGO_MANIFEST_DIR"), "/.."#"/verif"#' "$OUT/mc/src/common.rs"
 if ! ( cd "$OUT/mc" && CARGO_TARGET_DIR=/tmp/cwmt-mc-target cargo build --release --offline --config "paths=[\"$SCR\"]" >"$OUT/build.log" 2>&1 ); then
   echo "$NAME BUILD-FAILED"; grep -E "^error" -A8 "$OUT/build.log" | head -30; exit 3
